@@ -72,7 +72,9 @@ class Gen:
             # the remaining unary and binary operators (small operands: no huge powers or shifts)
             self.features.add("rare-operator")
             e = self.expr("int", depth - 1)
-            return self.pick(["(+%s)", "(~%s)", "(%s ** 2)", "(%s << 1)", "(%s >> 1)", "int(%s / 2)", "((m @ m)[0, 1] + %s)"]) % e
+            return self.pick(["(+%s)", "(~%s)", "(%s ** 2)", "(%s << 1)", "(%s >> 1)", "int(%s / 2)", "((m @ m)[0, 1] + %s)",
+                              # operands on which the unary operators are not the identity (bool -> int)
+                              "ident(+(%s > 0))", "ident(-(%s > 1))", "ident(~(%s == 0))"]) % e
         if k == 17:
             # dict displays and ** in calls
             self.features.add("dict-display")
@@ -407,6 +409,11 @@ GUARDED = [
     ("mkq(0) < q < mkq(10 // q.v)", ["q"]),
     ("mkq({k}) <= q <= mkq(10 // q.v) < mkq(100)", ["q"]),
     ("ident(mkq(1) > q > mkq(10 % q.v))", ["q"]),
+    # parts of a comprehension that Python never reaches (empty iterable) and that would raise something else than a
+    # look-up error
+    ("all(y < 100 // n for y in xs) and len(xs) > {k} + 100", ["n", "xs"]),
+    ("[y for y in xs if 10 // n > y] == [] and len(xs) > {k} + 100", ["n", "xs"]),
+    ("sum(10 % n for y in xs) == 0 and len(xs) > {k} + 100", ["n", "xs"]),
     # displays holding an array-like whose == against foreign objects has no truth value (never compared by Python here)
     ("len([q, x]) > {k} + 100", ["q", "x"]),
     ("len((q, mkq(2))) > 100 or first([q]) < mkq(-1000)", ["q"]),
